@@ -22,7 +22,7 @@ func realChecks(c *core.Ctx, b *Built, p *plan, rs []VsResult, fs *findings) err
 	for _, r := range rs {
 		first[r.ID] = r
 	}
-	out, err := RunReal(c, b.RealBin, RealJob{Cfgs: p.realCfgs, Iters: 3, Seed: c.Seed}, "cross", 5*time.Minute)
+	out, err := RunReal(c, b.RealBin, RealJob{Cfgs: p.realCfgs, Iters: 3, Seed: c.Seed}, p.tag+"cross", 5*time.Minute)
 	if err != nil {
 		return err
 	}
@@ -45,7 +45,7 @@ func realChecks(c *core.Ctx, b *Built, p *plan, rs []VsResult, fs *findings) err
 			return fmt.Errorf("rewriter cross-check failed for %s: rewritten program delivered %v %v, unrewritten %v %v", r.ID, v.FirstGot, v.FirstRes, r.Got, r.Results)
 		}
 	}
-	c.Set("rewriter_crosscheck_configurations", checked)
+	c.Set("rewriter_crosscheck_configurations"+p.evSuffix, checked)
 	if p.stress > 0 {
 		n := p.procs / 2
 		if n < 1 {
@@ -59,7 +59,7 @@ func realChecks(c *core.Ctx, b *Built, p *plan, rs []VsResult, fs *findings) err
 			go func(i int) {
 				defer wg.Done()
 				outs[i], errs[i] = RunReal(c, b.RaceBin, RealJob{Cfgs: p.realCfgs, Seconds: p.stress, Seed: c.Seed*100 + int64(i), Jitter: true},
-					fmt.Sprintf("race%d", i), time.Duration(p.stress*4+120)*time.Second)
+					fmt.Sprintf("%srace%d", p.tag, i), time.Duration(p.stress*4+120)*time.Second)
 			}(i)
 		}
 		wg.Wait()
@@ -80,10 +80,10 @@ func realChecks(c *core.Ctx, b *Built, p *plan, rs []VsResult, fs *findings) err
 				}
 			}
 		}
-		c.Set("race_detector_runs", raceRuns)
-		c.Set("race_detector_stress_s", p.stress)
+		c.Set("race_detector_runs"+p.evSuffix, raceRuns)
+		c.Set("race_detector_stress_s"+p.evSuffix, p.stress)
 	}
-	c.Set("real_runtime_runs", realRuns)
+	c.Set("real_runtime_runs"+p.evSuffix, realRuns)
 	return nil
 }
 
